@@ -55,6 +55,20 @@ def jobs_for(tier, rnd):
     for c in strat3:
         jobs.append((gid, G.describe(c, 'text'), TX, {'stratum': 'context-depth3'}))
         gid += 1
+    # stratum: a choice that ALWAYS succeeds (its last option cannot fail) after an earlier option that fails having
+    # consumed input: the position is restored before the next option, whatever the choice's own flags say
+    part = [('seq', ('lit', 'a'), ('lit', 'b')), ('right', ('lit', 'a'), ('rx', '[bc]')), ('seq', ('ref', 'X'), ('lit', 'c')),
+            ('rep', ('seq', ('lit', 'a'), ('lit', 'b')), 2, None)]
+    last = [('lit', ''), ('opt', ('lit', 'a')), ('rx', 'b?'), ('rep', ('lit', 'a'), None, None), ('py', '1'), ('expectnot', ('lit', 'c'))]
+    for e1 in part:
+        for e2 in part + [('lit', 'a')]:
+            for z in last:
+                # (a bare inline-Python operand of the constructor form Longest(...) is read as an option value: not generated)
+                for alt in (('alt', e1, z), ('alt', e1, e2, z)) + ((('longest', e1, z),) if z[0] != 'py' else ()):
+                    for c in (alt, ('seq', alt, ('rx', '[abc]*')), ('seq', ('lit', 'a'), alt, ('rx', '[abc]*')), ('rep', ('seq', alt, ('lit', 'c')), None, None)):
+                        if G.well_formed(c, G.RULES_NULLABLE):
+                            jobs.append((gid, G.describe(c, 'text'), TX, {'stratum': 'always-succeeding-choice'}))
+                            gid += 1
     # stratum: regular expressions that match the empty string on their own but can FAIL in context (lookahead, anchors)
     zw = [('rx', '(?!b)'), ('rx', '$'), ('rx', '(?=a)[ab]*'), ('rx', '(?!a)b?'), ('rx', 'a*$')]
     for z in zw:
